@@ -22,6 +22,8 @@ pub fn yield_with<T: EventSource>(resource: &T) {
     let cancel = current_cancel_data();
     // if cancel detected in user space
     // no need to get into kernel any more
+    #[cfg(may_verif)]
+    crate::verif::pt("yield.check_cancel", 0, 0, 0);
     if unlikely(cancel.is_canceled()) {
         co_set_para(std::io::Error::other("Canceled"));
         return resource.yield_back(cancel);
